@@ -386,6 +386,59 @@ def gen_cli_cases(rng, count: int):
     return cases
 
 
+COERCE_POOL = [True, False, None, 0, 1, -7, 10, 305, '', '0', 'false', 'False', 'FALSE', 'fAlSe', 'true', 'True', 'no', 'yes', '1', ' 0', '0 ',
+               'off', 'ÀB', 'None', {'O': '[1, 2]'}, {'O': '1.5'}]
+
+
+def gen_coerce_cases(rng, count: int):
+    cases = []
+    for _ in range(count):
+        items = []
+        for i in range(rng.randrange(1, 7)):
+            if rng.random() < 0.15:
+                v = gen_val(rng, 2, 0.3)
+            else:
+                v = L(rng.choice(COERCE_POOL), rng.random() < 0.3)
+            items.append(('k%d' % i, v))
+        secs = N([('nunavut.lang.q', N(items))])
+        qs = []
+        for k in [k for k, _ in items] + ['missing']:
+            for sec in ['nunavut.lang.q'] + (['nunavut.lang.none'] if rng.random() < 0.2 else []):
+                qs.append([sec, k, 'v', rng.choice([None, '', 'dflt'])])
+                qs.append([sec, k, 'b', rng.random() < 0.5])
+                qs.append([sec, k, 'd', rng.choice([None, N([]), N([('z', L(1))])])])
+        cases.append({'kind': 'coerce', 'sections': secs, 'queries': qs})
+    return cases
+
+
+def coerce_oracle(sections_v, q):
+    """the documented behaviour of the getters on the documented value forms; None = not specified here"""
+    sec, k, kind, d = q
+    m = canon(sections_v).get(sec)
+    ent = m.get(k) if isinstance(m, dict) else None
+    if kind == 'd':
+        if isinstance(ent, dict):
+            return ['ok', ent]
+        if ent is None:
+            return ['ok', canon(d)] if d is not None else ['keyerror']
+        return ['ok', canon(d)] if d is not None else ['typeerror']
+    if isinstance(ent, dict) or (ent is not None and isinstance(ent[2], tuple) and ent[2][0] == 'O'):
+        return None
+    if ent is None:
+        if kind == 'b':
+            return ['ok', d]
+        return ['ok', d] if d is not None else ['keyerror']
+    a = ent[2]
+    a = a[1] if isinstance(a, tuple) else a           # ('B', bool)
+    if kind == 'v':
+        return ['ok', '' if a is None else str(a)]
+    if a is None:
+        return ['ok', False]
+    if isinstance(a, (bool, int)):
+        return ['ok', bool(a)]
+    return ['ok', not (a.lower() == 'false' or a == '0' or a == '')]
+
+
 # ---- running model and implementation ---------------------------------------------------------------------------
 def run_impl(reqs) -> typing.List[dict]:
     p = core.run([core.PY, os.path.join(core.VERIF, 'tools', 'harness', 'c13_impl.py')],
@@ -799,6 +852,45 @@ def main(chk: core.Check, replay: typing.Optional[str] = None) -> int:
                 elif 'sections' in o and mc['sections'] != canon(o['sections']):
                     bad_model.append((r, 'translated cli_ops + Config.bcreate_st vs _create_language_context: sections', mc['sections'],
                                       canon(o['sections'])))
+
+    # getters and coercions of LanguageConfig: implementation vs documented forms (oracle) vs model
+    coerce_cases = gen_coerce_cases(rng, 60 if quick else 1500) if not replay else [c for c in reqs if c['kind'] == 'coerce']
+    c_impl = run_impl(coerce_cases) if coerce_cases else []
+    c_lines = []
+    for c in coerce_cases:
+        sv = codec.enc(c['sections'])
+        for sec, k, kind, d in c['queries']:
+            ds = ('-' if d is None else codec.s(d)) if kind == 'v' else (('t' if d else 'f') if kind == 'b' else ('-' if d is None else codec.enc(d)))
+            c_lines.append('G %s %s %s %s %s' % (sv, codec.s(sec), codec.s(k), kind, ds))
+    c_model = core.run([exe], input='\n'.join(c_lines) + '\n', timeout=600).stdout.splitlines() if (ok_model and c_lines) else None
+    qi = 0
+    stats['getter_queries'] = 0
+    for c, o in zip(coerce_cases, c_impl):
+        for j, q in enumerate(c['queries']):
+            got = o['results'][j] if 'results' in o else ['harness error', o.get('err')]
+            if got[0] == 'ok' and q[2] == 'd':
+                got = ['ok', canon(got[1])]
+            stats['getter_queries'] += 1
+            want = coerce_oracle(c['sections'], q)
+            one = {'kind': 'coerce', 'sections': c['sections'], 'queries': [q]}
+            if want is not None and want != got:
+                bad_oracle.append((one, 'LanguageConfig getter returns something else than documented for this value form', want, got))
+            if c_model is not None:
+                ml = c_model[qi].split() if qi < len(c_model) else ['ERR']
+                if ml[:2] == ['G', 'unmodelled']:
+                    pass
+                elif ml[:2] == ['G', 'ok']:
+                    if q[2] == 'v':
+                        mv = ['ok', codec.us(ml[2][1:])]
+                    elif q[2] == 'b':
+                        mv = ['ok', ml[2] == 't']
+                    else:
+                        mv = ['ok', codec.dec_tokens(ml, 2)[0]]
+                    if mv != got:
+                        bad_model.append((one, 'Config.config_value* vs LanguageConfig.get_config_value*', mv, got))
+                elif ml[1:2] != got[:1]:
+                    bad_model.append((one, 'Config.config_value* vs LanguageConfig.get_config_value*', ml[1:], got))
+            qi += 1
 
     # fresh-process oracle: a context reports what a brand-new process given only its own builder's calls reports
     n_fresh = 6 if quick else 36
